@@ -327,6 +327,33 @@ pub fn check_perm(ctx: &Ctx, n: u64, c: &PermCase, st: &mut (u64, u64, u64)) -> 
     out.into_iter().map(|(sig, detail)| Violation { sig, detail, replay: replay.clone() }).collect()
 }
 
+/// the project with the arrays of its introspection JSON in another order
+fn permuted_introspection(jp: &Project, rng: &mut crate::rng::Rng) -> Option<Vec<(String, String)>> {
+    let sp = jp.schema_paths.first()?;
+    let text = &jp.files.iter().find(|(p, _)| p == sp)?.1;
+    let mut v: Value = serde_json::from_str(text).ok()?;
+    {
+        let schema = if v.get("data").is_some() { v.get_mut("data")?.get_mut("__schema")? } else { v.get_mut("__schema")? };
+        for key in ["types", "directives"] {
+            if let Some(a) = schema.get_mut(key).and_then(|x| x.as_array_mut()) {
+                rng.shuffle(a);
+                if key == "types" {
+                    for t in a.iter_mut() {
+                        for k2 in ["interfaces", "possibleTypes"] {
+                            if let Some(b) = t.get_mut(k2).and_then(|x| x.as_array_mut()) {
+                                rng.shuffle(b);
+                            }
+                        }
+                    }
+                }
+            }
+        }
+    }
+    let mut files = jp.files.clone();
+    files.iter_mut().find(|(p, _)| p == sp)?.1 = serde_json::to_string_pretty(&v).ok()?;
+    Some(files)
+}
+
 fn permuted_schema_files(proj: &Project, rng: &mut crate::rng::Rng) -> Vec<(String, String)> {
     let mut defs = proj.schema_model.defs.clone();
     rng.shuffle(&mut defs);
@@ -545,6 +572,19 @@ pub fn run(ctx: &Ctx, rep: &mut Report) {
         for p in &proj.op_paths {
             let stem = p.strip_suffix(".graphql").unwrap_or(p);
             outputs.push(("operation-types".to_string(), format!("{stem}.{}", proj.config.decl_extension())));
+        }
+        // every fourth project has its schema as an introspection result: there a permutation is another order of
+        // `types` and `directives` (and of each type's interfaces / possibleTypes) in the JSON document
+        if case % 4 == 3 {
+            let jp = crate::genproj::introspection_variant(&proj, &mut rng);
+            if let Some(permuted) = permuted_introspection(&jp, &mut rng) {
+                let c = PermCase { original: jp.files.clone(), permuted, root: jp.root.clone(), schema_output: jp.config.schema_output.as_ref().map(|s| format!("{}/{s}", jp.root)), outputs: outputs.clone() };
+                rep.eval();
+                rep.count("permutations|introspection-json");
+                rep.nontrivial(&format!("permj{:?}", c.permuted));
+                rep.violations(check_perm(ctx, 1_000_000 + case, &c, &mut pst));
+            }
+            continue;
         }
         for k in 0..2u64 {
             let mut permuted: Vec<(String, String)> = proj.files.iter().filter(|(p, _)| !proj.schema_paths.contains(p)).cloned().collect();
